@@ -40,7 +40,7 @@ fn generators() -> Vec<Gen> {
     let mut push = |name: String, m: M4, rotation: bool| g.push(Gen { name, m, rotation });
     for t in [vec3(1.0, 2.0, 3.0), vec3(-1000.0, 0.0, 0.5)] { push(format!("translate{:?}", t.0), translate(t), false); }
     for s in [vec3(2.0, 2.0, 2.0), vec3(1.0, -2.0, 0.5), vec3(-1.0, -1.0, -1.0), vec3(1e-2, 1.0, 1e1), vec3(0.05, 0.05, 0.05)] { push(format!("scale{:?}", s.0), scale(s), false); }
-    for a in [0.0f32, 30.0, 90.0, 180.0, 270.0, -45.0, 1.0, 1e4, 120.0] {
+    for a in [0.0f32, 30.0, 90.0, 180.0, 270.0, -45.0, 1.0, 1e4, 120.0, 90.001, -89.99, 86445.0, -123456.7] {
         push(format!("rotate_x({a})"), rotate_x(degs(a)), true);
         push(format!("rotate_y({a})"), rotate_y(degs(a)), true);
         push(format!("rotate_z({a})"), rotate_z(degs(a)), true);
@@ -115,7 +115,7 @@ fn check_word(word: &[usize], gens: &[Gen], r: &mut Report) {
         Err(p) => { r.violation(key(if dref.abs() <= 1.2e-7 { "inverse-panic-small-det" } else { "inverse-panic" }), format!("inverse() of a matrix with cond~{cond:.1} det={dref:.3e} panicked: {p}"), case()); return; }
     };
     let id = d4(&inv);
-    let tol = 1e-3 * cond.max(1.0);
+    let tol = 2e-5 * cond.max(1.0);
     for (nm, prod, (a, b)) in [("M.inv", mul(&mf, &id), (&mf, &id)), ("inv.M", mul(&id, &mf), (&id, &mf))] {
         for i in 0..4 { for j in 0..4 {
             let e = if i == j { 1.0 } else { 0.0 };
@@ -138,21 +138,25 @@ fn check_word(word: &[usize], gens: &[Gen], r: &mut Report) {
     if word.len() == 1 && gens[word[0]].rotation {
         // rotations: lengths, handedness, transpose = inverse
         let t = m.transpose();
-        if (dref - 1.0).abs() > 1e-4 { r.violation(key("rotation-det"), format!("det = {dref}"), case()); return; }
-        for i in 0..4 { for j in 0..4 { if (t.0[i][j] - inv.0[i][j]).abs() > 1e-4 { r.violation(key("rotation-transpose"), format!("transpose != inverse at [{i}][{j}]: {} vs {}", t.0[i][j], inv.0[i][j]), case()); return; } } }
+        if (dref - 1.0).abs() > 4e-6 { r.violation(key("rotation-det"), format!("det = {dref}"), case()); return; }
+        for a in 0..3 { for b in 0..3 { let d: f64 = (0..3).map(|k| mf[k][a] * mf[k][b]).sum(); if (d - if a == b { 1.0 } else { 0.0 }).abs() > 4e-6 { r.violation(key("rotation-orthonormal"), format!("columns {a},{b} have dot product {d}"), case()); return; } } }
+        for i in 0..4 { for j in 0..4 { if (t.0[i][j] - inv.0[i][j]).abs() > 1e-5 { r.violation(key("rotation-transpose"), format!("transpose != inverse at [{i}][{j}]: {} vs {}", t.0[i][j], inv.0[i][j]), case()); return; } } }
         for p in probes() {
             let v = vec3(p[0], p[1], p[2]);
             let w = m.apply(&v);
-            if ((w.len() - v.len()).abs() as f64) > 1e-4 * (1.0 + v.len() as f64) { r.violation(key("rotation-length"), format!("|R v| = {} but |v| = {}", w.len(), v.len()), case()); return; }
+            if ((w.len() - v.len()).abs() as f64) > 1e-5 * (1.0 + v.len() as f64) { r.violation(key("rotation-length"), format!("|R v| = {} but |v| = {}", w.len(), v.len()), case()); return; }
         }
     }
 }
 
 fn check_constructors(r: &mut Report) {
     // defining effects (conventions as documented / asserted by the repository's own tests)
-    for k in -48..=48 {
+    // angles k*7.5 degrees within +-1 turn, and the same plus 50, -240 and 3000 whole turns; the reference is
+    // f64 trigonometry of the f32 angle actually stored
+    for k in (-48..=48).chain((-48..=48).step_by(3).flat_map(|k| [k + 48 * 50, k - 48 * 240, k + 48 * 3000])) {
         let a = k as f32 * 7.5;
-        let (s, c) = ((a as f64).to_radians().sin(), (a as f64).to_radians().cos());
+        let ar = degs(a).to_rads() as f64;
+        let (s, c) = (ar.sin(), ar.cos());
         for p in probes() {
             r.eval();
             let (x, y, z) = (p[0] as f64, p[1] as f64, p[2] as f64);
@@ -163,7 +167,7 @@ fn check_constructors(r: &mut Report) {
             ];
             for (nm, m, want) in cases {
                 let got = m.apply_pt(&pt3(p[0], p[1], p[2])).0;
-                if (0..3).any(|i| (got[i] as f64 - want[i]).abs() > 1e-4 * 10.0) { r.violation(format!("ctor|{nm}({a})|{p:?}"), format!("{nm}({a} deg) maps {p:?} to {got:?}, expected {want:?}"), obj! {"kind" => "ctor"}); }
+                if (0..3).any(|i| (got[i] as f64 - want[i]).abs() > 1e-5 * 10.0) { r.violation(format!("ctor|{nm}({a})|{p:?}"), format!("{nm}({a} deg) maps {p:?} to {got:?}, expected {want:?}"), obj! {"kind" => "ctor"}); }
             }
         }
     }
@@ -248,7 +252,7 @@ fn run_algebra(cfg: &Cfg) -> ! {
     rep.sample(0, || obj! {"word" => "rotate_z(90) . scale[1,-2,0.5] . translate[-1000,0,0.5]", "probe" => vec![-1.0f32, -3.0, 7.0]});
     rep.sample(1, || obj! {"generators" => gens.iter().map(|g| g.name.clone()).collect::<Vec<_>>()});
     rep.finish(cfg, "exploration",
-        "all words of length <= L (quick 2, thorough 3) over a generator alphabet of translations, (non-)uniform/negative scalings, rotations about each axis by 9 angles incl. multiples of 90 degrees, orient_y/orient_z on non-perpendicular inputs, permutation/shear bases; per word: then == compose swapped (bit-exact), compose.apply == sequential application == f64 product on 27 probes, determinant vs f64 cofactors and multiplicativity, and for cond <= 1e3 inverse*M and M*inverse == I within 1e-3*cond (f64 evaluation of the f32 matrices); rotations: det 1, transpose == inverse, lengths preserved; constructor defining effects on a probe lattice; 3x3 compose/apply/transpose on literal matrices. non-trivial = invertible well-conditioned word fully judged.",
+        "all words of length <= L (quick 2, thorough 3) over a generator alphabet of translations, (non-)uniform/negative scalings, rotations about each axis by 12 angles incl. multiples of 90 degrees, 90.001, -89.99, 240 turns + 45 degrees and -123456.7 degrees, orient_y/orient_z on non-perpendicular inputs, permutation/shear bases; per word: then == compose swapped (bit-exact), compose.apply == sequential application == f64 product on 27 probes, determinant vs f64 cofactors and multiplicativity, and for cond <= 1e3 inverse*M and M*inverse == I within 2e-5*cond (f64 evaluation of the f32 matrices); rotations: det 1 and orthonormal columns within 4e-6, transpose == inverse within 1e-5, lengths preserved within 1e-5; constructor defining effects on a probe lattice; 3x3 compose/apply/transpose on literal matrices. non-trivial = invertible well-conditioned word fully judged.",
         &["condition estimated as ||A||_F ||A^-1||_F / 3 on the linear part in f64", "apply() on Vec3 translates (documented behaviour), so vector effects are judged as implemented for points"])
 }
 
@@ -353,10 +357,12 @@ fn check_viewport(l: u32, t: u32, rr: u32, b: u32, r: &mut Report) {
 fn check_camera(i: u64, r: &mut Report) {
     let dims = [(8u32, 8u32), (16, 9), (5, 7), (33, 21)][(i % 4) as usize];
     let rects = [(0u32, 0u32, 100u32, 100u32), (1, 2, 7, 6), (3, 0, 40, 5), (0, 3, 4, 30), (2, 2, 3, 3)];
-    let (l, t, rr, b) = rects[(i / 4 % 5) as usize];
-    let focal = [0.5f32, 1.0, 2.0][(i / 20 % 3) as usize];
-    let ortho = (i / 60) % 2 == 1;
-    let pidx = i / 120;
+    // sixth choice: viewport() is never called - Camera::new(dims) alone must cover the whole frame
+    let default_vp = i / 4 % 6 == 5;
+    let (l, t, rr, b) = if default_vp { (0, 0, dims.0, dims.1) } else { rects[(i / 4 % 6) as usize] };
+    let focal = [0.5f32, 1.0, 2.0][(i / 24 % 3) as usize];
+    let ortho = (i / 72) % 2 == 1;
+    let pidx = i / 144;
     r.eval();
     let case = || obj! {"kind" => "camera", "i" => i};
     // effective rectangle
@@ -364,7 +370,8 @@ fn check_camera(i: u64, r: &mut Report) {
     if el >= er || et >= eb { return; }
     let (vw, vh) = ((er - el) as f64, (eb - et) as f64);
     let cam = match caught(|| {
-        let c = Camera::new(dims).mode(translate(vec3(0.5, -0.25, 1.0)).to::<RealToReal<3, World, View>>()).viewport((l..rr, t..b));
+        let c = Camera::new(dims).mode(translate(vec3(0.5, -0.25, 1.0)).to::<RealToReal<3, World, View>>());
+        let c = if default_vp { c } else { c.viewport((l..rr, t..b)) };
         if ortho { c.orthographic(pt3(-2.0, -1.5, 0.5)..pt3(2.0, 1.5, 50.0)) } else { c.perspective(focal, 0.5..50.0) }
     }) { Ok(c) => c, Err(p) => { r.violation(format!("camera-setup-panic|{dims:?}|{l},{t},{rr},{b}"), p, case()); return; } };
     // world probe points -> view = world + (0.5,-0.25,1)
@@ -438,9 +445,9 @@ fn check_first_person(i: u64, r: &mut Report) {
         fp.rotate_to(degs(az), degs(alt));
         desc = format!("{pre_desc}pos={:?}|az={az}|alt={alt}", pos.0);
     } else {
-        let dirs = [[1.0f32, 0.0, 0.0], [-1.0, 0.0, 0.0], [0.0, 0.0, 1.0], [0.0, 0.0, -1.0], [0.0, 1.0, 0.0], [0.0, -1.0, 0.0], [1.0, 1.0, 1.0], [-1.0, 2.0, -0.5], [0.3, -0.7, 0.2], [-2.0, -0.1, 5.0], [1e-3, 1.0, 0.0], [0.0, 0.5, -2.0]];
-        let d = dirs[(i / 54 % 12) as usize];
-        let dist = [1.0f32, 7.5][(i / 648 % 2) as usize];
+        let dirs = [[1.0f32, 0.0, 0.0], [-1.0, 0.0, 0.0], [0.0, 0.0, 1.0], [0.0, 0.0, -1.0], [0.0, 1.0, 0.0], [0.0, -1.0, 0.0], [1.0, 1.0, 1.0], [-1.0, 2.0, -0.5], [0.3, -0.7, 0.2], [-2.0, -0.1, 5.0], [1e-3, 1.0, 0.0], [0.0, 0.5, -2.0], [3e-3, -1.0, 1e-3], [0.02, 1.0, -0.01], [-0.1, 1.0, 0.05], [0.5, 3.0, 0.5]];
+        let d = dirs[(i / 54 % 16) as usize];
+        let dist = [1.0f32, 7.5][(i / 864 % 2) as usize];
         let target: Vec3 = vec3(pos.x() + d[0] * dist, pos.y() + d[1] * dist, pos.z() + d[2] * dist);
         fp.look_at(target.to());
         desc = format!("{pre_desc}pos={:?}|look_at={:?}", pos.0, target.0);
@@ -448,7 +455,9 @@ fn check_first_person(i: u64, r: &mut Report) {
         let m = fp.world_to_view();
         let v = m.apply_pt(&pt3::<f32, World>(target.x(), target.y(), target.z())).0;
         let dl = (d[0] * d[0] + d[1] * d[1] + d[2] * d[2]).sqrt() * dist;
-        if (v[0].abs() as f64) > 1e-3 * dl as f64 || (v[1].abs() as f64) > 1e-3 * dl as f64 || ((v[2] - dl).abs() as f64) > 1e-3 * dl as f64 {
+        // f32 accuracy: a few ulps of the coordinates involved (|pos| <= 6, distance <= 13)
+        let tol = 1e-5 * dl as f64 + 4e-6 * (1.0 + pos.len() as f64);
+        if (v[0].abs() as f64) > tol || (v[1].abs() as f64) > tol || ((v[2] - dl).abs() as f64) > tol {
             let vertical = d[0].abs() < 1e-2 && d[2].abs() < 1e-2;
             r.violation(format!("fp-look-at|{}|{desc}", if vertical { "vertical" } else { "general" }), format!("look-at target maps to view {v:?}, expected (0,0,{dl})"), case());
             return;
@@ -466,6 +475,17 @@ fn check_first_person(i: u64, r: &mut Report) {
         let alt = fp.heading.alt().to_degs();
         r.violation(format!("fp-rigid|{}|{desc}", if alt.abs() > 89.5 { "straight-up-down" } else { "general" }), format!("world_to_view is not rigid: det {det}, matrix {:?}", m.0), case());
         return;
+    }
+    // rotate_to(az, alt): the direction az/alt names (azimuth from +x towards +z, altitude towards +y; harness-side f64
+    // trigonometry, not to_cart) maps onto the positive depth axis
+    if mode == 0 {
+        let az = (((i / 54 % 25) as f64) * 15.0 - 180.0).to_radians();
+        let alt = ([0.0f64, 30.0, -30.0, 89.0, -89.0, 90.0, -90.0, 45.0][(i / 1350 % 8) as usize]).to_radians();
+        let dir = [az.cos() * alt.cos(), alt.sin(), az.sin() * alt.cos()];
+        let q = [pos.x() as f64 + 2.0 * dir[0], pos.y() as f64 + 2.0 * dir[1], pos.z() as f64 + 2.0 * dir[2]];
+        let got = apply_d(&md, q);
+        let tol = 2e-5 + 4e-6 * (1.0 + pos.len() as f64);
+        if got[0].abs() > tol || got[1].abs() > tol || (got[2] - 2.0).abs() > tol { r.violation(format!("fp-heading-direction|{desc}"), format!("the point 2 units along the requested heading maps to view {got:?}, expected (0,0,2)"), case()); return; }
     }
     // forward direction of the heading maps to +z
     let f = fp.heading.to_cart();
@@ -502,14 +522,14 @@ fn run_proj(cfg: &Cfg) -> ! {
     for l in 0..=6u32 { for rr in l + 1..=7 { for t in 0..=6u32 { for b in t + 1..=7 { rects.push((l, t, rr, b)); } } } }
     rects.extend([(20, 10, 620, 470), (0, 0, 101, 75), (3, 4, 324, 205), (0, 0, 1, 1), (10, 10, 11, 4000)]);
     rep.merge(par_range(cfg, rects.len() as u64, |i, r| { let (l, t, rr, b) = rects[i as usize]; check_viewport(l, t, rr, b, r); }));
-    rep.merge(par_range(cfg, 120 * 10, check_camera));
+    rep.merge(par_range(cfg, 144 * 10, check_camera));
     rep.merge(par_range(cfg, 54 * 25 * 8 * 6, check_first_person));
     let _: Angle = degs(0.0);
     let _: Option<Point3> = None;
     let _ = <FirstPerson as Mode>::world_to_view;
     rep.sample(0, || obj! {"perspective" => "focal 2, aspect 2.35, near..far 0.01..10, probe (u,v,z) = (1-2e-4, -1.5, far)", "viewport" => vec![3, 4, 324, 205], "camera" => "frame 5x7, requested (3..40, 0..5), focal 1, world point (-1.2,0.9,4)", "first_person" => "pos (-2,0,3.5), az 165, alt 90; look_at straight down; translate (0.5,-2,3)"});
     rep.finish(cfg, "exploration",
-        "perspective: 5 focal x 4 aspect x 4 near/far x a 9x9x11 probe lattice in frustum coordinates (inside, on every face, +-2e-4 off, behind the eye): inside iff inside the clip volume, near/far to -1/+1, monotone depth, w = depth; orthographic boxes likewise; viewport: all rectangles with corners in 0..7 plus large/odd ones map the NDC square onto the rectangle; camera: 4 frame sizes x 5 requested rectangles (partly outside the frame) x 3 focal ratios x perspective/orthographic x 10 world points: matrix path vs pinhole pixel/depth, and a rendered half-pixel triangle lights only pixels near the prediction and inside viewport∩frame; first person: 6 operation histories (fresh; after rotate_to; after look_at; after two relative rotations; after translate+look_at; after a near-vertical rotate_to) x 27 positions x (25 azimuths x 8 altitudes incl. +-90 | 12 look-at directions incl. straight up/down x 2 distances): rigid (det +1, orthonormal), position to origin, heading/target onto +z, translate displaces along right / up / horizontal forward. non-trivial = case fully judged with a decisive (non-band) outcome.",
+        "perspective: 5 focal x 4 aspect x 4 near/far x a 9x9x11 probe lattice in frustum coordinates (inside, on every face, +-2e-4 off, behind the eye): inside iff inside the clip volume, near/far to -1/+1, monotone depth, w = depth; orthographic boxes likewise; viewport: all rectangles with corners in 0..7 plus large/odd ones map the NDC square onto the rectangle; camera: 4 frame sizes x (5 requested rectangles, partly outside the frame | no viewport() call at all = whole frame) x 3 focal ratios x perspective/orthographic x 10 world points: matrix path vs pinhole pixel/depth, and a rendered half-pixel triangle lights only pixels near the prediction and inside viewport∩frame; first person: 6 operation histories (fresh; after rotate_to; after look_at; after two relative rotations; after translate+look_at; after a near-vertical rotate_to) x 27 positions x (25 azimuths x 8 altitudes incl. +-90 | 16 look-at directions incl. straight up/down and 0.06-6 degrees off vertical x 2 distances): rigid (det +1, orthonormal), position to origin, heading/target onto +z, translate displaces along right / up / horizontal forward. non-trivial = case fully judged with a decisive (non-band) outcome.",
         &["probe bands: 1e-4 relative around frustum faces are exempt", "pinhole model: pixel = centre + focal*W/2 * (x/z, y/z), depth 1/z, as documented for perspective() and viewport()"])
 }
 
